@@ -241,7 +241,9 @@ pub fn next_solution<'a>(sn: Rc<RefCell<SolutionNode<'a>>>)
                 Operator::Not(_) => {
 
                     let mut sn_ref = sn.borrow_mut();
+                    // Not succeeds or fails once. It has no other solutions.
                     if !sn_ref.more_solutions { return None; };
+                    sn_ref.more_solutions = false;
 
                     match &sn_ref.head_sn {
                         Some(head_sn) => {
@@ -249,7 +251,6 @@ pub fn next_solution<'a>(sn: Rc<RefCell<SolutionNode<'a>>>)
                             match solution {
                                 Some(_) => return None,
                                 None => {
-                                    sn_ref.more_solutions = false;
                                     return Some(Rc::clone(&sn_ref.ss));
                                 },
                             }
